@@ -86,6 +86,8 @@ pub struct KeyModel {
     /// a requested remove left the key's complete file on disk with no delete task and no write parked:
     /// nothing will ever delete it, yet the removal is complete as far as the caller can tell
     pub gone_expected: bool,
+    /// the value of the last put of this key if the store refused it (it may still sit in the read cache)
+    pub refused_val: Option<u32>,
     /// values whose disk write failed and whose failure notification has not been handled yet
     pub failed_pending: Vec<u32>,
 }
@@ -103,6 +105,7 @@ impl KeyModel {
             disk_err_armed: false,
             race: None,
             gone_expected: false,
+            refused_val: None,
             failed_pending: vec![],
         }
     }
